@@ -1087,7 +1087,11 @@ def _host_exec_snapshot():
         for name, expr in (("lower", sa.func.lower("MiXed")), ("upper", sa.func.upper("MiXed")),
                            ("round", sa.func.round(2.567, 1)), ("ltrim", sa.func.ltrim("  x ")),
                            ("rtrim", sa.func.rtrim("  x ")), ("substr", sa.func.substr("abcdef", 2, 3)),
-                           ("floor", sa.func.floor(2.5)), ("ceil", sa.func.ceil(2.5))):
+                           ("floor", sa.func.floor(2.5)), ("ceil", sa.func.ceil(2.5)),
+                           ("lower_non_ascii", sa.func.lower("\u00c9CLAIR")),
+                           ("upper_non_ascii", sa.func.upper("\u00e9clair")),
+                           ("lower_of_int", sa.func.lower(12)), ("ceil_of_int", sa.func.ceil(3)),
+                           ("round_2", sa.func.round(2.567, 2))):
             try:
                 r = conn.execute(sa.select(expr)).scalar()
                 out[name] = [repr(r), type(r).__name__]
